@@ -9,6 +9,10 @@
 // anchors on `let .. = if compress {`, the libdeflater cluster accepts `truncate(actual_sz)` for `resize(actual_sz, 0)`.
 // The "tidied" `let uncompressed_buf_size = bytes.len(); let out_bytes = if compress {..} else { bytes };` is judged:
 // VIOLATION advertised_uncompressed_size (0 iff not compressed); it used to end as "anchor lost".
+// Mutation sweep follow-up: `Vec::with_capacity(EXPR)` accepts any arithmetic over literals and `items_in_section.len()`
+// (`+`/`*` only: pure hint, dropped, stays OK; with `-`: `assert((EXPR over int) >= 0)` is added, the code's own overflow/
+// capacity panic; `/`, calls, other names: not guessed, exit 2); `(bytes, N)` keeps its literal: `(bytes, 1)` is VIOLATION
+// advertised_uncompressed_size.
 use vstd::prelude::*;
 use vstd::std_specs::ops::*;
 use vstd::std_specs::convert::FromSpec;
@@ -113,8 +117,11 @@ proof fn lemma_max_end_sorted(s: Seq<ZoomRecord>, n: int)
 //@presub /let mut compressor = Compressor::new\(CompressionLvl::default\(\)\);\s*let max_sz = compressor\.zlib_compress_bound\(bytes\.len\(\)\);\s*let mut compressed_data = vec!\[0; max_sz\];\s*let actual_sz = compressor\s*\.zlib_compress\(&bytes, &mut compressed_data\)\s*\.unwrap\(\);\s*compressed_data\.(?:resize\(actual_sz, 0\)|truncate\(actual_sz\));/ => let compressed_data = deflate_vec(&bytes); let actual_sz = compressed_data.len(); let max_sz = actual_sz;
 //@sub /(\w+)\s*\.iter\(\)\s*\.map\(\|(\w+)\| \2\.(start|end)\)\s*\.fold\(([^;]*?), u32::max\)/ => fold_max_\3(&\1, \4) min=0
 //@sub /(\w+)\s*\.iter\(\)\s*\.map\(\|(\w+)\| \2\.(start|end)\)\s*\.(max|min)\(\)\s*\.unwrap\(\)/ => \4_of_\3(&\1) min=0
-//@sub /let mut bytes = Vec::with_capacity\(items_in_section\.len\(\) \* 32\);/ => let mut bytes = Sink::with_capacity(0);
-//@sub /\(bytes, 0\)/ => (bytes.bytes, 0) min=0
+//@sub /let mut bytes = Vec::with_capacity\(((?:\d+|items_in_section\.len\(\)|[-+*\/()]|\s)*)\);/ => let mut bytes = Sink::with_capacity(0); CAP{\1}CAP
+//@sub / CAP\{[^-\/{}]*\}CAP/ => "" min=0
+//@sub /items_in_section\.len\(\)(?=[-+*()\d\s]*(?:items_in_section\.len\(\)[-+*()\d\s]*)*\}CAP)/ => items_in_section@.len() min=0
+//@sub /CAP\{([^\/{}]*)\}CAP/ => assert((\1) >= 0); min=0
+//@sub /\(bytes, (\d+)\)/ => (bytes.bytes, \1) min=0
 //@sub /\}\s*else\s*\{\s*bytes\s*\}/ => } else { bytes.bytes } min=0
 //@sub /io::Result</ => Result<
 //@sub /usize\)> \{/ => usize), IoError> {
